@@ -35,6 +35,12 @@ def gen_case(rng, name):
         c["matrix"] = [[base + 2 * rng.randint(0, 10 ** 6) + 2 * (i + n * j) for j in range(m)] for i in range(n)]
         c["dtypes"] = ["int64"] * m
         c["mode"] = "int_beyond_2^53"
+    elif name not in T.IMPUTERS and rng.random() < 0.12:
+        # criteria of different widths side by side (float32 next to float64, int32 next to int64, unsigned ...)
+        gen.narrow_dtypes(rng, c, positive=(style == "positive"), wide=0.2)
+        c["mode"] = "narrow_dtypes"
+        if rng.random() < 0.5:
+            c["route"] = "ctor"         # a DataFrame whose columns have these types, handed to the constructor
     if style == "positive" or name in ("CRITIC", "Critic", "StdWeighter", "CenitDistanceMatrixScaler"):
         # no constant criterion
         for j in range(m):
@@ -189,6 +195,10 @@ def run(ctx):
             continue
         ch = changed_parts(o)
         ctx.case_seen(c, bool(ch))
+        if not o.get("input_as_given", True):
+            ctx.disagree(c, {"what": "the decision matrix built from the case does not report the case's numbers "
+                                     "(criteria storage types: %r)" % (c.get("dtypes"),),
+                             "reported": o["before"]["matrix"]})
         msg = oracle(c, o)
         if msg:
             ctx.oracle_fail(c, {"oracle": msg, "changed": ch})
@@ -211,6 +221,10 @@ def run(ctx):
             continue
         ch = changed_parts(o)
         ctx.case_seen(c, bool(ch))
+        if not o.get("input_as_given", True):
+            ctx.disagree(c, {"what": "the decision matrix built from the case does not report the case's numbers "
+                                     "(criteria storage types: %r)" % (c.get("dtypes"),),
+                             "reported": o["before"]["matrix"]})
         msg = oracle(c, o)
         if msg:
             ctx.oracle_fail(c, {"oracle": msg, "changed": ch})
